@@ -259,6 +259,15 @@ func (x *Exec) monitorPred(env *Env, name string, args []*SExpr) Val {
 			field = a.Name
 		}
 	}
+	if env.ghostScope != nil && (name == "signalled" || name == "waited") {
+		k := name + "!" + field
+		t, ok := env.ghostScope[k]
+		if !ok {
+			t = x.E.fresh("callee."+name+"."+field, BoolS)
+			env.ghostScope[k] = t
+		}
+		return mathVal(t)
+	}
 	switch name {
 	case "signalled":
 		return mathVal(x.ghostBool(env.st, "signalled!"+field))
